@@ -1116,6 +1116,7 @@ public:
     std::vector<const FunctionDecl *> Fns;
     std::vector<const CXXRecordDecl *> Recs;
     std::vector<const VarDecl *> Globals;
+    std::vector<const EnumDecl *> Enums;
     std::set<const Decl *> Seen;
     explicit Collector(Dumper &D) : D(D) {}
     bool shouldVisitTemplateInstantiations() const
@@ -1151,6 +1152,18 @@ public:
             return true;
         if (Seen.insert(RD).second)
             Recs.push_back(RD);
+        return true;
+    }
+    bool VisitEnumDecl(EnumDecl *ED)
+    {
+        if (!ED->isThisDeclarationADefinition())
+            return true;
+        if (!D.inRoot(ED->getLocation()))
+            return true;
+        if (ED->getDeclContext()->isDependentContext())
+            return true;
+        if (Seen.insert(ED).second)
+            Enums.push_back(ED);
         return true;
     }
     bool VisitVarDecl(VarDecl *VD)
@@ -1209,6 +1222,27 @@ public:
             J.attributeArray("functions", [&] {
                 for (auto *FD : C.Fns)
                     D.function(FD);
+            });
+            J.attributeArray("enums", [&] {
+                for (auto *ED : C.Enums) {
+                    J.object([&] {
+                        J.attribute("qn", ED->getQualifiedNameAsString());
+                        J.attribute("file", D.fileOf(ED->getLocation()));
+                        J.attribute("line", D.lineOf(ED->getLocation()));
+                        if (ED->isScoped())
+                            J.attribute("scoped", 1);
+                        J.attributeArray("enumerators", [&] {
+                            for (auto *EC : ED->enumerators()) {
+                                J.object([&] {
+                                    J.attribute("n", EC->getNameAsString());
+                                    J.attribute(
+                                        "v", (int64_t)EC->getInitVal()
+                                                 .getExtValue());
+                                });
+                            }
+                        });
+                    });
+                }
             });
             J.attributeArray("globals", [&] {
                 for (auto *VD : C.Globals) {
